@@ -73,6 +73,30 @@ def lock_key(tok):
 ROUTER_LOCK = {}
 
 
+def _creates_thread(facts, g, depth=0, seen=None):
+    seen = seen or set()
+    if g.name in seen or depth > 3: return False
+    seen.add(g.name)
+    for n in g.nodes():
+        if n.k == 'construct' and (n.d.get('class') or '') in ('std::thread', 'std::jthread'): return True
+        if n.k == 'call' and n.callee_in_root and any(_creates_thread(facts, t, depth + 1, seen) for t in facts.resolve(n)): return True
+    return False
+
+
+def _before_thread_creation(facts, acc):
+    """the access is made in a member function that creates the std::thread (itself or through a helper), and every place where it
+    does so comes after the access and cannot lead back to it"""
+    g = next((h for h in facts.fns if h.name == acc.fn), None)
+    if g is None or g.cfg is None or acc.node is None: return False
+    sites = [n for n in g.nodes() if (n.k == 'construct' and (n.d.get('class') or '') in ('std::thread', 'std::jthread'))
+             or (n.k == 'call' and n.callee_in_root and any(_creates_thread(facts, t) for t in facts.resolve(n)))]
+    if not sites: return False
+    try:
+        return all(g.cfg.reaches(acc.node, c) and not g.cfg.reaches(c, acc.node) for c in sites)
+    except Exception:
+        return False
+
+
 def compatible(m1, m2):
     """both may hold the lock at the same time"""
     return m1 == 'R' and m2 == 'R'
@@ -160,6 +184,15 @@ def run(facts, rep, tier):
         for x in (a, b):
             if x.root[0] == 'worker' and len(x.path) == 3 and x.path[0] == 'cap' and common.thread_body_deletes(facts, x.root[1], x.path[1], x.chain):
                 if a.root == b.root and a.path[:2] == b.path[:2]: return 'E6 (task object owned by the thread that runs and deletes it)'
+        # E8: a member of the Thread object that only its own thread body touches after start() created the thread: two runs of one
+        # Thread object's body never overlap (assigning a new std::thread over a joinable one terminates the program)
+        if strip_targs(cls) == 'tulz::Thread' and a.root == b.root and a.root[0] == 'worker' and a.path[:1] in (('cap',), ('this',)) and a.path[:2] == b.path[:2]:
+            return 'E8 (the Thread object\'s own body: its runs on one object do not overlap)'
+        # E9: what the starting thread writes into the Thread object before it creates the std::thread happens before everything the new
+        # thread does (thread creation synchronises)
+        if strip_targs(cls) == 'tulz::Thread' and {a.root[0], b.root[0]} == {'owner', 'worker'}:
+            o_ = a if a.root[0] == 'owner' else b
+            if _before_thread_creation(facts, o_): return 'E9 (written by start() before it creates the thread)'
         if e7_ok is not False and a.root[0] == 'worker' and b.root[0] == 'worker' and all(any(x.path[i:i + 2] == ('m_queue', '*') for i in range(len(x.path) - 1)) for x in (a, b)):
             return 'E7 (task removed from the queue under m_queueMutex: owned by the worker that removed it)' if e7_ok else 'UNDECIDED E7: the worker\'s take -> run -> delete discipline (TP.1 / TP.2) is not decided on this tree'
         if (cls, fld) == ('tulz::PooledThread', 'm_lastActiveTime') and e5_ok and a.root[0] == 'worker' and b.root[0] == 'worker':
